@@ -7,8 +7,8 @@ if [ -n "$(git -C /repo status --porcelain --untracked-files=no)" ]; then echo "
 for id in $ids; do
   prop=$(python3 -c "import json;print(json.load(open('seeded/$id/meta.json'))['property'])")
   extra=$(python3 -c "import json;print(' '.join(json.load(open('seeded/$id/meta.json')).get('also_check',[])))")
-  if ! git -C /repo apply --check seeded/$id/patch.diff 2>/dev/null; then echo "$id $prop PATCH-DOES-NOT-APPLY"; continue; fi
-  git -C /repo apply seeded/$id/patch.diff
+  if ! git -C /repo apply --check "$PWD/seeded/$id/patch.diff" 2>/dev/null; then echo "$id $prop PATCH-DOES-NOT-APPLY"; continue; fi
+  git -C /repo apply "$PWD/seeded/$id/patch.diff"
   res=""
   for c in $prop $extra; do
     out=$(./check $c --tier quick 2>&1); code=$?
